@@ -48,7 +48,7 @@ def check(ctx, replay=None):
     # 1. the footprint model: every interleaving of 3 goroutines x 4 sharing configurations
     jobs = []
     for share in ("distinct", "groups", "names", "conds"):
-        jobs.append(conc_job("Conc_" + share, share, '<<"Assemble", "Dump", "FlagString">>'))
+        jobs.append(conc_job("Conc_" + share, share, '<<"Assemble", "Dump", "FlagString", "MarshalText">>'))
     if th:
         for share in ("groups", "conds"):
             jobs.append(conc_job("Conc2_" + share, share, '<<"Assemble", "GetInfo", "Assemble", "Unpack">>', timeout=3000))
